@@ -453,7 +453,7 @@ func c17RestoreWith(c *fw.Ctx, id string, src []byte, ov map[string]string) {
 		}
 		var buf bytes.Buffer
 		var err error
-		if sig, detail := fw.Try(func() { err = decorator.NewRestorerWithImports("example.com/self", simple.New(m)).Fprint(&buf, df) }); sig != "" {
+		if sig, detail := fw.Try(func() { err = c17Restorer(simple.New(m), ov).Fprint(&buf, df) }); sig != "" {
 			c.Violate("panic-on-fault", sig, cid+"\n"+detail, string(src))
 			return
 		}
